@@ -34,13 +34,17 @@ CLAIMED = {
   note="Assumed: spawned goroutines eventually run and do not interfere (schedules are out of scope); encoding/json and centrifuge delivery; webhook channel see C12.",
   design="4 C11"),
  "C07": dict(
-  text="Deductive proof of the containment logic: a hash is treated as forbidden iff it equals one of the network's HeadersToIgnore (ignoreBlockHash, loop invariant); a forbidden submission leaves the store and the notification count unchanged and is answered BlockRejected (Add, shared with C01); the default engine's verifyCheckpointHeight passes the batch flag through off the checkpoint height, sets it on a matching header and disconnects the peer (ghost DISC) with an error on a differing one; findNextHeaderCheckpoint / findNextCheckpoint return exactly the first checkpoint above the given height (pointers into the checkpoint slice modelled as element references, backward loop invariant); sendGetHeadersWithPassedParams issues exactly one getheaders with the given stop hash (ghost GETHDR). The batch loop of SyncManager.handleHeadersMsg itself is not yet under contract.",
-  note="Assumed: Peer.Disconnect/PushGetHeadersMsg/PeerNotifier.BanPeer effect contracts (ghost counters; sockets are outside), checkpoints sorted ascending (a requires). Not covered: the convergence clause (C06, not applicable), server.go handleBanPeerMsg (see C18), 'never served by any endpoint' follows from 'never stored' (C04 reads return stored records only).",
+  text="Deductive proof of the containment logic: a hash is treated as forbidden iff it equals one of the network's HeadersToIgnore (ignoreBlockHash, loop invariant); a forbidden submission leaves the store and the notification count unchanged and is answered BlockRejected (Add, shared with C01); the default engine's verifyCheckpointHeight passes the batch flag through off the checkpoint height, sets it on a matching header and disconnects the peer (ghost DISC) with an error on a differing one; findNextHeaderCheckpoint / findNextCheckpoint return exactly the first checkpoint above the given height (pointers into the checkpoint slice modelled as element references, backward loop invariant); sendGetHeadersWithPassedParams issues exactly one getheaders with the given stop hash (ghost GETHDR). SyncManager.handleHeadersMsg (loop invariant over the ghost history ADDS of Chains.Add answers): unknown peer or empty batch - no effect; unrequested headers - disconnect; a BlockRejected answer - ban + disconnect + stop + no request; an accepted header at the checkpoint height with another hash - disconnect + stop + no request; otherwise nobody is disconnected, every header was submitted, and after a longest-chain header exactly one getheaders goes to this peer: towards the next checkpoint after a matching checkpoint header, with the zero stop hash after the last one.",
+  note="Assumed: Peer.Disconnect/PushGetHeadersMsg/PeerNotifier.BanPeer effect contracts (ghost counters; sockets are outside), checkpoints sorted ascending and zeroHash never written (requires), Chains.Add seen through its port contract (error classes proved on chainService.Add, whose store preconditions are C01's). Not covered: the convergence clause (C06, not applicable), server.go handleBanPeerMsg (see C18), 'never served by any endpoint' follows from 'never stored' (C04 reads return stored records only).",
   design="4 C07"),
  "C04": dict(
   text="Deductive proof, over the ghost header table HS and for every structurally valid stored tree, of the HeaderService queries: by hash returns the stored record or 404; tip returns a longest-chain record of maximal height; by-height returns only stored records of the mathematical window [height, height+count-1] and every longest-chain record in it; ancestors(hash, ancestor) succeeds only when ancestor is an ancestor (anc, inductive lemmas) and always when it is a proper one; common-ancestor returns an ancestor of every given header strictly below the lowest given height and no higher header qualifies (four loops with invariants, areAllElementsEqual); HS is in no query's frame (reads never modify the store). The L1 repository glue and the trusted SQL reads are checked by the bounded stand-in storelab on real SQLite.",
   note="Assumed: repository.Headers port contracts (SQL is trusted L0; bounded conformance by storelab: quick all trees of <=4 headers, thorough <=5); GetTips' 'every leaf of a stale or orphan branch' is carried by the port contract of GetAllTips only (storelab-checked, not proved); reads succeed (rok); HTTP layer see C16.",
   design="4 C04"),
+ "C13": dict(
+  text="Deductive proof over the ghost header table HS, for every structurally valid store: LatestHeaderLocator (loop invariant, interior pointers &tip.Hash modelled as field references) returns only stored longest-chain hashes, entry 0 is the tip, heights strictly descend, entry i+1 lies lstep(i) below entry i (1 for the first 11 entries, then doubling, as a bit-vector spec function) clamped at 0, and with successful reads the last entry has height 0; locateHeadersGetHeaders / LocateHeaders return exactly the run of longest-chain headers at heights s+1.. (s = greatest height of a locator entry on the longest chain, 0 if none; ghost out-parameter LOC.start), field by field, ending at the stop hash's height when the stop is a longest-chain header ahead, capped at s+2000 and at the tip, and nothing when the stop lies at or below s (genesis stop: defect found and fixed); the L1 repository methods GetHeadersStartHeight / GetHeadersStopHeight / GetHeadersByHeightRange are proved against the port contracts.",
+  note="Assumed: the three SQL queries (trusted L0 contracts; bounded conformance by storelab on real SQLite incl. the un-ORDERed range query on tables inserted parent-first), reads succeed (rok) for the completeness clauses; an unknown or stale stop hash counts as no stop (as the storage reports height 0 for it). Not covered: OnGetHeaders/handleGetHeadersMsg wrappers in transports/p2p (IsCurrent gate, queueing), the wire encoding (C14).",
+  design="4 C13"),
  "C09": dict(
   text="Deductive proof of the authentication middleware (parseAuthHeader: only 'Bearer <t>' without spaces passes; getToken: every token-service error becomes 401; ApplyToAPI: with auth enabled either one structured 401 + abort + nothing set, or the token is set and nothing is written; with auth disabled no effect) and of the admin wrapper (validateToken, RequireAdmin and its closure: the wrapped handler is invoked iff the context holds an admin *domains.Token, otherwise one structured error, aborted, stores untouched), plus structural SSA-provenance obligations (no solver): every RegisterAPIEndpoints implementation registers routes only on the group it is given, SetupRoutes passes engine.Group(\"/api/v1\", authentication middlewares...) to each of them, the mutating /access routes are wrapped by RequireAdmin(handler, cfg.UseAuth), and the unauthenticated registrations are exactly status, swagger, pprof, metrics and the websocket upgrade.",
   note="Assumed: gin runs group middleware before handlers and AbortWithStatusJSON stops the chain; strings.Split contract; the route table as gin materialises it at run time is not observed. The structural obligations are syntactic facts about the SSA, enumerated from the code on every run.",
